@@ -854,12 +854,63 @@ func runInventoryCmd(args []string) {
 								})
 							}
 							scan(x.Body, 0)
+							// plain assignments (=) to variables that live outside the loop body: what such a variable holds after the
+							// loop may depend on the order of the entries (a running maximum decides ties by order); sums (+=),
+							// appends and stores into map / slice elements are not counted
+							declared := map[string]bool{}
+							ast.Inspect(x.Body, func(m ast.Node) bool {
+								switch y := m.(type) {
+								case *ast.AssignStmt:
+									if y.Tok == token.DEFINE {
+										for _, l := range y.Lhs {
+											if id, ok := l.(*ast.Ident); ok {
+												declared[id.Name] = true
+											}
+										}
+									}
+								case *ast.ValueSpec:
+									for _, n := range y.Names {
+										declared[n.Name] = true
+									}
+								case *ast.RangeStmt:
+									for _, e := range []ast.Expr{y.Key, y.Value} {
+										if id, ok := e.(*ast.Ident); ok && y.Tok == token.DEFINE {
+											declared[id.Name] = true
+										}
+									}
+								}
+								return true
+							})
+							assigns := 0
+							ast.Inspect(x.Body, func(m ast.Node) bool {
+								if _, ok := m.(*ast.FuncLit); ok {
+									return false
+								}
+								if as, ok := m.(*ast.AssignStmt); ok && as.Tok == token.ASSIGN {
+									for i, l := range as.Lhs {
+										id, ok := l.(*ast.Ident)
+										if !ok || id.Name == "_" || declared[id.Name] {
+											continue
+										}
+										// x = append(x, ...) accumulates
+										if i < len(as.Rhs) && len(as.Lhs) == len(as.Rhs) {
+											if c, ok := as.Rhs[i].(*ast.CallExpr); ok {
+												if f, ok := c.Fun.(*ast.Ident); ok && f.Name == "append" && len(c.Args) > 0 && exprText(fset, c.Args[0]) == id.Name {
+													continue
+												}
+											}
+										}
+										assigns++
+									}
+								}
+								return true
+							})
 							var cl []string
 							for c := range calls {
 								cl = append(cl, c)
 							}
 							sort.Strings(cl)
-							mapRanges = append(mapRanges, fmt.Sprintf("%s|%s|range|%s exits=%d calls=%s", rel, fn, shapeText(fset, x.X, pkgs), exits, strings.Join(cl, ",")))
+							mapRanges = append(mapRanges, fmt.Sprintf("%s|%s|range|%s exits=%d calls=%s assigns=%d", rel, fn, shapeText(fset, x.X, pkgs), exits, strings.Join(cl, ","), assigns))
 						}
 					}
 					return true
